@@ -295,6 +295,7 @@ type outcome struct {
 	setupNote string // non-empty: the set-up did not get as far as the request under test
 	resp      *vkit.Resp
 	calls     []vkit.JEntry // storage calls of the request under test
+	st        *vkit.Store   // the storage of this execution (to see whether a success is backed by it)
 }
 
 // execute builds the scenario from scratch, performs its set-up fault-free, arms the fault plan and issues the request under test.
@@ -307,5 +308,5 @@ func execute(c Case, faults []vkit.Fault) outcome {
 	w.st.SetFaults(faults...)
 	r := req()
 	w.st.SetFaults()
-	return outcome{resp: r, calls: w.st.CallsOf(r.Req)}
+	return outcome{resp: r, calls: w.st.CallsOf(r.Req), st: w.st}
 }
